@@ -157,7 +157,12 @@ func (g *sgen) num() json.Number { return json.Number(Pick(g.r, SchemaNumbers)) 
 func (g *sgen) smallInt() json.Number {
 	n := g.r.IntN(5)
 	if g.r.IntN(8) == 0 {
-		return json.Number(fmt.Sprintf("%d.0", n))
+		// the same integer in another lexical form (JSON Schema means the mathematical integer)
+		forms := []string{"%d.0", "%d.0", "%de0", "%dE0", "%d.0e0", "%de+0", "%d.00"}
+		if n > 0 {
+			forms = append(forms, "%d0e-1", "%d00E-2")
+		}
+		return json.Number(fmt.Sprintf(Pick(g.r, forms), n))
 	}
 	return json.Number(fmt.Sprint(n))
 }
